@@ -561,7 +561,77 @@ func c03DBSuite(r *Result, rng *rand.Rand, tier string) {
 	}
 }
 
+// ---- Create from a slice of maps on the real database vs Model.Scan.createMaps ----
+type c03MapsInput struct {
+	Returning bool  `json:"returning"`
+	Ptr       bool  `json:"ptr"`
+	Max       int64 `json:"max"`
+	N         int   `json:"n"`
+}
+
+func c03RunMaps(in c03MapsInput) interface{} {
+	db, sqlDB := c03Open(in.Returning, nil)
+	defer sqlDB.Close()
+	if e := db.AutoMigrate(&BFRow{}); e != nil {
+		return "migrate-error"
+	}
+	if in.Max > 0 {
+		db.Create(&BFRow{ID: in.Max, P: "seed"})
+	}
+	ms := make([]map[string]interface{}, in.N)
+	for i := range ms {
+		ms[i] = map[string]interface{}{"p": fmt.Sprint("m", i)}
+	}
+	var err error
+	if in.Ptr {
+		err = db.Model(&BFRow{}).Create(&ms).Error
+	} else {
+		err = db.Model(&BFRow{}).Create(ms).Error
+	}
+	if err != nil {
+		return "error"
+	}
+	keys := make([]interface{}, in.N)
+	for i := 0; i < in.N; i++ {
+		if v, ok := ms[i]["id"]; ok {
+			keys[i] = v
+		}
+	}
+	return []interface{}{keys, len(ms)}
+}
+
+func c03MapsSuite(r *Result, rng *rand.Rand, tier string) {
+	var ins []c03MapsInput
+	var ops [][]interface{}
+	for _, ret := range []bool{true, false} {
+		for _, ptr := range []bool{true, false} {
+			for n := 1; n <= 5; n++ {
+				in := c03MapsInput{ret, ptr, int64(rng.Intn(3) * (1 + rng.Intn(30))), n}
+				ins = append(ins, in)
+				ops = append(ops, []interface{}{"c03.createmaps", ret, ptr, in.Max, n})
+			}
+		}
+	}
+	outs, err := AskLean(ops)
+	if err != nil {
+		r.Violate(Violation{Kind: "correspondence", Suite: "create-maps", Note: err.Error()})
+		return
+	}
+	for i, in := range ins {
+		real := c03RunMaps(in)
+		r.CorrCompared++
+		r.Case("create-maps", canon(in), in.N > 1)
+		r.H("create-maps", fmt.Sprintf("returning=%v ptr=%v", in.Returning, in.Ptr))
+		if canon(real) != canonRaw(outs[i]) {
+			r.Violate(Violation{Kind: "correspondence", Suite: "create-maps", Input: in, Observed: real, Expected: json.RawMessage(outs[i]),
+				Note: "Create from a slice of maps differs from Model.Scan.createMaps"})
+		}
+	}
+}
+
 func init() {
+	register("C03", c03MapsSuite)
+	replayers["C03/create-maps"] = func(r *Result, input json.RawMessage) { r.Note("create-maps replays are correspondence-only") }
 	register("C03", c03LoopSuite)
 	register("C03", c03DBSuite)
 	replayers["C03/backfill-db"] = func(r *Result, input json.RawMessage) {
